@@ -26,14 +26,17 @@ fn content(seed: u64, len: usize) -> Vec<u8> {
     Rng::new(seed.wrapping_mul(0x9E37_79B9).wrapping_add(77)).bytes(len)
 }
 
-fn source(entries: &Value) -> MemSource {
+pub fn source(entries: &Value) -> MemSource {
     let mut v = Vec::new();
     for e in entries.as_array().unwrap() {
         let path = e["path"].as_str().unwrap();
         let kind = match e["kind"].as_str().unwrap() {
             "dir" => Kind::Dir,
             "link" => Kind::Symlink(e["target"].as_str().unwrap_or("t").as_bytes().to_vec()),
-            _ => Kind::File(content(e["seed"].as_u64().unwrap_or(0), e["size"].as_u64().unwrap_or(0) as usize)),
+            _ => match e.get("raw").and_then(Value::as_str) {
+                Some(h) => Kind::File(hex::decode(h).unwrap()),
+                None => Kind::File(content(e["seed"].as_u64().unwrap_or(0), e["size"].as_u64().unwrap_or(0) as usize)),
+            },
         };
         v.push(Entry {
             path: path.to_string(),
